@@ -146,6 +146,7 @@ type plan struct {
 	cT      tsv
 	err     error
 	r1, r2  *reads
+	r3      *reads // after the second restart
 	claimed []seenKV
 	lastKey int
 	lastOK  bool
@@ -364,7 +365,11 @@ func genPlan(rng *common.Rng, idx int, tier string) *plan {
 			if rng.Chance(10) {
 				k = 2
 			}
-			o = opT{Kind: "patch", K: k, Create: rng.Chance(70), Clear: rng.Chance(20), tcls: cls()}
+			o = opT{Kind: "patch", K: k, Create: rng.Chance(70), Clear: rng.Chance(30), tcls: cls()}
+			if rng.Chance(50) {
+				// the expiry index is already built when the patch (clear / slide / set) arrives
+				p.ops = append(p.ops, opT{Kind: "touch"})
+			}
 		case x < 80:
 			k := 2
 			if rng.Chance(10) {
@@ -518,6 +523,21 @@ func main() {
 	a = c30.New(s)
 	common.Parallel(n, 16, func(i int) { phaseB(a, plans[i]) })
 	a.Close()
+	// a second close + reload: whatever the history, the claim and the patches left must still be there
+	s = s.Restart()
+	register(s)
+	a = c30.New(s)
+	common.Parallel(n, 16, func(i int) {
+		p := plans[i]
+		if p.err != nil {
+			return
+		}
+		var err error
+		if p.r3, err = doReads(a, p); err != nil {
+			p.err = fmt.Errorf("reads3: %w", err)
+		}
+	})
+	a.Close()
 	var stopOnce sync.Once
 	stopOnce.Do(s.Stop)
 
@@ -576,8 +596,8 @@ func main() {
 			lo := p.ops2[len(p.ops2)-1]
 			last = common.Some(fmt.Sprintf("(%s, %s, %s, %s)", common.N(uint64(p.lastKey)), common.Bool(lo.Clear), lo.T.coq(), common.Bool(p.lastOK)))
 		}
-		term := fmt.Sprintf("{| c_sat := %s; c_now := %s; c_ops := %s; c_r1 := %s; c_claim := %s; c_claimed := %s; c_r2 := %s; c_last := %s |}",
-			common.Bool(sat), nowZ, common.List(ops), p.r1.coq(), claim, coqSeenList(p.claimed), p.r2.coq(), last)
+		term := fmt.Sprintf("{| c_sat := %s; c_now := %s; c_ops := %s; c_r1 := %s; c_claim := %s; c_claimed := %s; c_r2 := %s; c_r3 := %s; c_last := %s |}",
+			common.Bool(sat), nowZ, common.List(ops), p.r1.coq(), claim, coqSeenList(p.claimed), p.r2.coq(), p.r3.coq(), last)
 		descr := map[string]interface{}{"swamp": p.swamp, "t0": p.t0, "ops": p.ops2, "reload_before_op": p.split, "claim": p.claim,
 			"claim_clear": p.cClear, "claim_set": p.cT, "claimed": p.claimed, "get_before": p.r1.get, "get_after": p.r2.get,
 			"idx_asc_before": p.r1.asc, "window": []int{p.winFrom, p.winTo}}
